@@ -981,6 +981,80 @@ def wait_groups(model, info, art):
     return "contradicted", f"watch={watch} order={order}: W intact={out['W_ok']}, returned={out.get('ret')!r}, raised={out['raised']!r}"
 
 
+# ------------------------------------------------------------------------------------------------ C04 (T1 obligations)
+def uncacheable(model, info, art):
+    want = ["pause", "subscribe", "unsubscribe", "stage", "unstage", "monitor", "unmonitor", "open_run", "close_run",
+            "install_suspender", "remove_suspender", "_start_suspender"]
+    got = list(RunEngine._UNCACHEABLE_COMMANDS)
+    return ("contradicted" if sorted(got) == sorted(want) else "confirmed"), f"_UNCACHEABLE_COMMANDS = {got}"
+
+
+def implicit_checkpoint(model, info, art):
+    """C04 H: run [two cacheable messages, <the handler's message>, one more message] on a real RunEngine and look at the message cache
+    when the last message arrives (msg_hook runs before the message is cached): an (implicit) checkpoint must have emptied it; after
+    clear_checkpoint only an explicit checkpoint may re-create it"""
+    handler, kind = info.get("handler", "_stage"), info.get("cache", "messages")
+    RE = RunEngine({}, context_managers=[])
+    snap = {}
+    marker = Msg("null", None, "marker")
+
+    def hook(msg):
+        if msg is marker:
+            c = RE._msg_cache
+            snap["cache"] = None if c is None else [m.command for m in c]
+    RE.msg_hook = hook
+
+    def plan():
+        yield Msg("open_run")
+        if handler == "_unmonitor":
+            yield Msg("monitor", _SIG)
+        token = None
+        if handler == "_unsubscribe":
+            token = yield Msg("subscribe", None, _callback, "all")
+        if handler == "_rewindable" and info.get("before") is False:
+            yield Msg("rewindable", None, False)
+        if kind == "none":
+            yield Msg("clear_checkpoint")
+        elif kind == "messages":
+            yield Msg("null")
+            yield Msg("null")
+        else:
+            yield Msg("checkpoint")
+        m = {"_stage": Msg("stage", _DEV), "_unstage": Msg("unstage", _DEV), "_monitor": Msg("monitor", _SIG), "_unmonitor": Msg("unmonitor", _SIG),
+             "_subscribe": Msg("subscribe", None, _callback, "all"), "_unsubscribe": Msg("unsubscribe", token=token),
+             "_close_run": Msg("close_run"), "_checkpoint": Msg("checkpoint"), "_clear_checkpoint": Msg("clear_checkpoint"),
+             "_rewindable": Msg("rewindable", None, info.get("requested"))}[handler]
+        yield m
+        yield marker
+    try:
+        RE(plan())
+    except Exception as e:   # noqa
+        return "not-constructible", f"native plan failed: {e!r}"
+    got = snap.get("cache", "no snapshot")
+    if handler == "_clear_checkpoint":
+        ok = got is None
+    elif handler == "_rewindable":
+        toggled = info.get("requested") is not None and info.get("requested") != info.get("before")
+        ok = (got is None) if kind == "none" else ((got == []) if toggled else (got is not None and len(got) >= 2))
+    elif kind == "none":
+        ok = (got == []) if handler == "_checkpoint" else (got is None)
+    else:
+        ok = got == []
+    return ("contradicted" if ok else "confirmed"), f"{handler} with cache {kind}: the cache when the next message arrives is {got}"
+
+
+def rewind_plan(model, info, art):
+    import collections
+    n = int(info.get("n", 2))
+    RE = RunEngine({}, context_managers=[])
+    msgs = [Msg("null", None, i) for i in range(n)]
+    RE._msg_cache = collections.deque(msgs)
+    gen = RE._rewind()
+    got = list(gen)
+    ok = len(got) == n and all(a is b for a, b in zip(got, msgs)) and isinstance(RE._msg_cache, collections.deque) and len(RE._msg_cache) == 0
+    return ("contradicted" if ok else "confirmed"), f"_rewind over {n} cached messages replays {len(got)} (identical: {all(a is b for a, b in zip(got, msgs))}), cache afterwards {list(RE._msg_cache) if RE._msg_cache is not None else None}"
+
+
 if __name__ == "__main__":
     import sys
     art = json.load(open(sys.argv[1]))
